@@ -291,6 +291,15 @@ func trimEnv(scn string) []string {
 	return fl[vkit.Hash("trim-flavour", string(b))%uint64(len(fl))]
 }
 
+// plainEnv: Go variables a process of an ordinary (not -trimpath) build may find in its
+// environment: nothing, GOFLAGS without -trimpath, or GOFLAGS that switches it off
+// explicitly (a CI image exporting -trimpath=false to override a default).
+func plainEnv(scn string) []string {
+	b, _ := os.ReadFile(scn)
+	fl := [][]string{nil, nil, nil, {"GOFLAGS=-mod=mod"}, {"GOFLAGS=-trimpath=false"}, {"GOFLAGS=-mod=mod -trimpath=false -count=1"}, {"GOFLAGS=-trimpath=0"}, {"GOFLAGS=-ldflags=-trimpath"}}
+	return fl[vkit.Hash("plain-flavour", string(b))%uint64(len(fl))]
+}
+
 // RunChild executes one real test process.
 func (p *Program) RunChild(o RunOpt) *RunResult {
 	res := &RunResult{Opt: o}
@@ -385,6 +394,9 @@ func (p *Program) RunChild(o RunOpt) *RunResult {
 	res.CIEnv = ciEnv(o.CI, scn)
 	if p.Trim {
 		res.TrimEnv = trimEnv(scn)
+		cmd.Env = append(cmd.Env, res.TrimEnv...)
+	} else {
+		res.TrimEnv = plainEnv(scn)
 		cmd.Env = append(cmd.Env, res.TrimEnv...)
 	}
 	var eb bytes.Buffer
